@@ -182,7 +182,7 @@ func runC01(x *mc.X) {
 
 	if threeStep {
 		// a validation round in between: origin answers 304 (freshening) — the ghost is updated per §4.3.4
-		kind := mc.Pick(x, "mid.answer", []string{"304", "304+max-age=20", "200", "200+expires=5", "200+heuristic=5", "304+age=100-no-date", "304+two-cache-control-lines"})
+		kind := mc.Pick(x, "mid.answer", []string{"304", "304+max-age=20", "200", "200+expires=5", "200+heuristic=5", "304+age=100-no-date", "304+two-cache-control-lines", "304 that takes 5 s"})
 		var mid RS
 		switch kind {
 		case "304+age=100-no-date": // the validation reply went through an upstream cache and carries no Date
@@ -193,6 +193,8 @@ func runC01(x *mc.X) {
 			mid = RS{Status: 200, H: H("Last-Modified", httpDate(time.Now().Add(-secs(50))), "ETag", `"v2"`)}
 		case "304":
 			mid = RS{Status: 304, NoTok: true, H: H("ETag", `"v1"`)}
+		case "304 that takes 5 s": // the response delay of the validation is part of the freshened response's age (RFC 9111 §4.2.3)
+			mid = RS{Status: 304, NoTok: true, Delay: secs(5), H: H("ETag", `"v1"`)}
 		case "304+max-age=20":
 			mid = RS{Status: 304, NoTok: true, H: H("ETag", `"v1"`, "Cache-Control", "max-age=20")}
 		case "304+two-cache-control-lines": // both lines replace the stored field: the lifetime is 0, not heuristic
